@@ -119,8 +119,14 @@ def replay_all(ck, cases, engine, tag):
             first.setdefault(idx, (st, key, msg))
         if first:
             # rule 5: every failing behaviour is re-run once (fresh process) before it is reported
+            known = {idx for idx in first if ck.findings.is_known(PROP, finding_key(first[idx][1], engine, cases[idx], first[idx][0]))}
+            for idx in sorted(known):          # counted as KNOWN-FINDING by Check.violation, never reported: no re-run needed
+                st, key, msg = first[idx]
+                ck.violation(finding_key(key, engine, cases[idx], st), msg, None)
+                first.pop(idx)
+            ck.add("known_finding_hits", len(known))
             again = [(idx, cases[idx], engine) for idx in sorted(first)]
-            f2, d2 = run_chunk(again)
+            f2, d2 = run_chunk(again) if again else ([], None)
             still = {f[0] for f in f2}
             if d2:
                 still = set(first)
@@ -141,44 +147,67 @@ def finding_key(key, engine, case, step):
 
 
 TIERS = {
-    # (cfg, nparts, engines, simulate)
-    "quick": [("MIRLink_mc.cfg", 1, (0,), None)],
-    "thorough": [("MIRLink_mc.cfg", 1, (0, 1), None), ("MIRLink_t.cfg", 8, (0, 1), None), ("MIRLink_sim.cfg", 1, (0, 1), (4000, 16))],
+    # (cfg, engines, simulate)
+    "quick": [("MIRLink_mc.cfg", (0,), None)],
+    "thorough": [("MIRLink_mc.cfg", (0, 1), None), ("MIRLink_t.cfg", (0, 1), None), ("MIRLink_sim.cfg", (0, 1), (4000, 16))],
 }
 
 
-def generate(cfg, part, nparts, sim):
-    """One TLC run: a partition of the BFS (part 0 = everything) or a simulation."""
+def generate(cfg, sim, chunk=100000):
+    """One TLC run (BFS or simulation).  Returns (result, iterator over lists of at most `chunk` behaviours): the
+    OUT lines are parsed lazily from the output file so that a million behaviours never sit in memory at once
+    (partitioning the BFS over JVMs instead would explore states shared by several partitions repeatedly)."""
+    out_file = os.path.join(vlib.scratch_dir("c13-"), "tlc.out")
     if sim:
-        r = run_tlc("MIRLink", cfg, workers=min(4, WORKERS), simulate=sim[0], depth=sim[1] + 1, seed_=vlib.seed(), timeout=1500)
+        r = run_tlc("MIRLink", cfg, workers=min(4, WORKERS), simulate=sim[0], depth=sim[1] + 1, seed_=vlib.seed(), timeout=1500,
+                    collect_out=False, out_file=out_file)
     else:
-        r = run_tlc("MIRLink", cfg, workers=WORKERS, env={"PART": part, "NPARTS": nparts}, heap="6g", timeout=1500)
+        r = run_tlc("MIRLink", cfg, workers=WORKERS, heap="6g", timeout=1500, collect_out=False, out_file=out_file)
+    tail = "\n".join(l for l in r.out[-200000:].splitlines() if '"OUT' not in l)[-2000:]
+    r.out = ""
     if r.rc == 12 or r.violation:
-        raise MachineryError("model-level property violated in %s: %s\n%s" % (cfg, r.violation, r.out[-2000:]))
-    tlc_ok(r, cfg)
-    return r.outs, r.states, r.distinct, r.wall
+        raise MachineryError("model-level property violated in %s: %s\n%s" % (cfg, r.violation, tail))
+    if r.rc != 0:
+        raise MachineryError("TLC failed for %s (rc=%s):\n%s" % (cfg, r.rc, tail))
+
+    def chunks():
+        cur = []
+        with open(out_file, errors="replace") as f:
+            for line in f:
+                if '"OUT' not in line:
+                    continue
+                for pay in vlib._OUT_RE.findall(line):
+                    try:
+                        cur.append(json.loads(vlib._unescape_tla(pay)))
+                    except Exception:
+                        raise MachineryError("cannot parse OUT line: " + line[:300])
+                if len(cur) >= chunk:
+                    yield cur
+                    cur = []
+        if cur:
+            yield cur
+        try:
+            os.unlink(out_file)
+            os.rmdir(os.path.dirname(out_file))
+        except OSError:
+            pass
+    return r, chunks()
 
 
 def run(tier, mutate=None):
     ck = Check(PROP, tier, "model_checking")
     harness_exe()
     tot_states = tot_trans = tot_cases = 0
-    for cfg, nparts, engines, sim in TIERS[tier]:
+    for cfg, engines, sim in TIERS[tier]:
         if not os.path.exists(os.path.join(vlib.SPEC, cfg)):
             raise MachineryError("missing " + cfg)
-        c_states = c_trans = c_cases = c_bad = 0
-        c_wall = 0.0
-        for part in (range(1, nparts + 1) if nparts > 1 else [0]):
-            t0 = time.time()
-            cases, states, distinct, wall = generate(cfg, part, nparts, sim)
-            t1 = time.time()
-            if not cases:
-                raise MachineryError("no behaviours emitted by %s part %d" % (cfg, part))
+        c_cases = c_bad = 0
+        t0 = time.time()
+        r, chunks = generate(cfg, sim)
+        c_states, c_trans, c_wall = r.distinct, r.states, r.wall
+        for cases in chunks:
             if mutate:
                 cases = mutate(cases)
-            c_states += distinct
-            c_trans += states
-            c_wall += wall
             c_cases += len(cases)
             ck.sample({"cfg": cfg, "case": cases[len(cases) // 2]}, maxn=4)
             for e in engines:
@@ -188,9 +217,11 @@ def run(tier, mutate=None):
             ck.add("steps_replayed", sum(len(c["h"]) for c in cases) * len(engines))
             ck.add("link_steps", sum(1 for c in cases for s in c["h"] if s["a"] == "link") * len(engines))
             ck.add("error_endings", sum(1 for c in cases if c["h"][-1].get("err")) * len(engines))
-            if nparts > 1:
-                vlib.log("    part %d/%d: %d behaviours, generation %.0fs, replay %.0fs" % (part, nparts, len(cases), t1 - t0, time.time() - t1))
             del cases
+        if c_cases == 0:
+            raise MachineryError("no behaviours emitted by " + cfg)
+        if not sim and c_cases != c_trans - 1 and c_cases != c_trans:
+            raise MachineryError("%s: %d behaviours parsed but TLC generated %d transitions" % (cfg, c_cases, c_trans))
         tot_states += c_states
         tot_trans += c_trans
         vlib.log("  MIRLink %s: %d distinct states, %d transitions, %d behaviours x %d engines replayed, %d mismatching (%.0fs TLC)"
@@ -224,7 +255,7 @@ def replay(path):
 
 def selftest():
     """Binding demonstration: corrupt one expected binding / verdict / resolver call and show the harness objects."""
-    cases, _, _, _ = generate("MIRLink_mc.cfg", 0, 1, None)
+    cases = [c for ch in generate("MIRLink_mc.cfg", None)[1] for c in ch]
     bad = 0
 
     def pick(pred):
